@@ -248,9 +248,9 @@ fn simpler(op: &Op) -> Vec<Op> {
                 out.push(Op::Extend { m: *m, items: items[items.len() / 2..].to_vec(), by_ref: *by_ref, hint: *hint });
             }
         }
-        Op::FromIter { m, items } => {
+        Op::FromIter { m, items, hint } => {
             if items.len() > 1 {
-                out.push(Op::FromIter { m: *m, items: items[..items.len() / 2].to_vec() });
+                out.push(Op::FromIter { m: *m, items: items[..items.len() / 2].to_vec(), hint: *hint });
             }
         }
         Op::Retain { m, pred, mutate } => {
